@@ -106,13 +106,21 @@ def handlePrintList (lead occ w k items : String) : String :=
   | _, _, _, _ => "bad-op"
 
 mutual
-/-- operand tokens: `w,<hex>` | `p,<hex>` | `g,<lead>,<occ>,<k>,<n>,Opd, n × (<op>,<occ>,<sp1>,<sp2>,Opd)` -/
+/-- operand tokens: `w,<hex>` | `p,<hex>` | `fw,<hex>,<hex>` | `fp,<hex>,<hex>` | `g,<lead>,<occ>,<k>,<n>,Opd, n × (<op>,<occ>,<sp1>,<sp2>,Opd)` -/
 def parseOpdToks : Nat → List String → Option (Opd × List String)
   | 0, _ => none
   | fuel + 1, toks =>
     match toks with
     | "w" :: h :: rest => (textOfHex h).map fun w => (wordOpd w, rest)
     | "p" :: h :: rest => (textOfHex h).map fun w => (phraseOpd w, rest)
+    | "fw" :: hf :: h :: rest =>
+      match textOfHex hf, textOfHex h with
+      | some f, some w => some (fieldWordOpd f w, rest)
+      | _, _ => none
+    | "fp" :: hf :: h :: rest =>
+      match textOfHex hf, textOfHex h with
+      | some f, some w => some (fieldPhraseOpd f w, rest)
+      | _, _ => none
     | "g" :: lead :: occ :: k :: n :: rest =>
       match lead.toNat?, parseOccTok occ, k.toNat?, n.toNat? with
       | some lead, some occ, some k, some n =>
